@@ -34,7 +34,10 @@ def scratch():
     if _scratch is None:
         base = os.environ.get("TMPDIR", "/tmp")
         _scratch = tempfile.mkdtemp(prefix="verif-", dir=base)
-        atexit.register(lambda: shutil.rmtree(_scratch, ignore_errors=True))
+        if not os.environ.get("VERIF_KEEP_SCRATCH"):
+            atexit.register(lambda: shutil.rmtree(_scratch, ignore_errors=True))
+        else:
+            log("scratch kept: " + _scratch)
     return _scratch
 
 
